@@ -9,11 +9,66 @@ BASE_TECH = "runtime monitoring: generated workload run through the real code, "
 
 CHECKS = {
  # id: (category, technique, level text, level note, design ref)
- "C14": ("exploration",
-         BASE_TECH + "math/big reference oracle + outside-bit complement invariance; exhaustive over alignments x widths",
-         "Every (alignment, width, signedness) combination is executed on structured patterns (exhaustive) and on millions of random buffers; each result is compared with an independent math/big extraction and must not change when all bits outside the field are complemented. Finite structured space swept completely; random part is sampling.",
-         "Trusts math/big and the harness bit helpers (self-checked by a writer/extractor round trip at every run).",
-         "DESIGN.md section 6, C14"),
+ "C01": ("exploration", BASE_TECH + "independent frame predicate (bitwise CRC-24Q) as oracle on every typed delivery and on direct single-frame decoding of crafted candidates",
+         "Thousands of hostile streams and tens of thousands of crafted single-frame inputs are run through the real stream handler and GetMessage; every typed result is judged by a frame predicate written from the standard, independent of the code. Sampling of an unbounded input space: held on the executions observed.",
+         "Trusts the harness CRC-24Q (checked against the catalogue value and every captured receiver frame at each run). CRC collisions are valid frames by definition.", "DESIGN.md section 6, C01"),
+ "C02": ("exploration", BASE_TECH + "concatenation-equals-input oracle under the race detector with channel-capacity, timing, GOMAXPROCS and check-time yield-hook perturbation",
+         "Each input is run under several schedules (capacities, producer/consumer timing, GOMAXPROCS, hooks before every channel operation); losslessness, non-empty messages, closure exactly once (double close = crash of the child) and return are observed directly. Schedules are perturbed, not enumerated.",
+         "Trusts the Go race detector; an interleaving that needs a pre-emption where no hook and no natural yield exists can be missed.", "DESIGN.md section 6, C02"),
+ "C03": ("exploration", BASE_TECH + "expected (type, bytes) sequence by construction from the generator's own segment list; every payload length and every truncation position swept",
+         "The generator knows the segments it emitted, so the expected delivery sequence needs no reference parser; all payload lengths 1..1023 and every truncation point of short frames are executed.",
+         "Inputs restricted to the property's precondition (0xD3-free junk).", "DESIGN.md section 6, C03"),
+ "C04": ("exploration", BASE_TECH + "independent MSM4/MSM7 encoder (validated bit-for-bit on captured receiver frames at every run) as oracle for every exported decoded field at several paddings",
+         "Random well-formed messages of all 14 types, all mask shapes and field extremes are encoded independently and decoded through both public paths; every field and cell attachment is compared; each message is decoded at several padding sizes.",
+         "Trusts the independent encoder, itself anchored to real receiver data each run.", "DESIGN.md section 6, C04"),
+ "C05": ("exploration", BASE_TECH + "independent 1005/1006 encoder and pure-integer decimal formatting as oracles; every truncation length and every wrong type number enumerated",
+         "Boundary values, all truncations (payload and raw frame) and all 4095 wrong type numbers are enumerated; 10^5 random messages compare every field and the displayed 0.1 mm text at both log levels through both public paths.",
+         "Display parsed by the fixed phrases of the current text format.", "DESIGN.md section 6, C05"),
+ "C06": ("exploration", BASE_TECH + "truth-first time histories: true UTC instants generated first, timestamps derived by pure time arithmetic, reported times parsed back and compared",
+         "Histories across 0..many rollovers, four constellations interleaved, start times within milliseconds of each rollover in several zones, illegal timestamps spliced in; through GetMessage and the stream handler. The oracle contains no rollover logic.",
+         "GPS-UTC 18 s, BeiDou 4 s, GLONASS UTC+3 h as the property states; leap-second changes are outside the property.", "DESIGN.md section 6, C06"),
+ "C07": ("exploration", BASE_TECH + "process survival with crash containment (child per batch, on-disk witness before each case, recover() on the monitor's goroutine, logical hang verdict)",
+         "Every payload length 1..1023 for 19 type numbers in six hostile payload shapes, truncations and mask inflation of well-formed bodies, and hostile streams are pushed through framing, decoding and display at both log levels; a panic on the handler's goroutine kills only the child and is attributed to the recorded case.",
+         "A hang is called only after the case ran 60 s twice (second time alone).", "DESIGN.md section 6, C07"),
+ "C08": ("exploration", BASE_TECH + "200-bit big.Float evaluation of the standard's formulas as oracle (relative 1e-12), pinned wavelength table, MSM4/MSM7 cross-check",
+         "2*10^5 cells (quick) covering every field's invalid marker, extremes and all (constellation, signal id) pairs, obtained by decoding independently encoded messages and by direct construction; text rules for invalid values checked.",
+         "Frequency table pinned from the library's documented constants (the property does not fix physical values).", "DESIGN.md section 6, C08"),
+ "C09": ("exploration", BASE_TECH + "race detector + check-time yield hooks at every channel operation + goroutine-state accounting; relational oracle = same build's sequential framing",
+         "The real reader->framing->fan-out pipeline is run hundreds (thorough: tens of thousands) of times with chunked/paused/interrupted readers, 1-4 buffered/unbuffered/slow/nil consumers, several sources through one AppCore, GOMAXPROCS 1..16 and hook profiles; sequences, return, helper-goroutine exit, double close and races are observed.",
+         "Schedules perturbed not enumerated; distinct interleavings observed are reported.", "DESIGN.md section 6, C09"),
+ "C10": ("exploration", BASE_TECH + "in-process executor added to package main by build overlay + the real binary as a process; quiescence defined on goroutine states; frames judged by the independent predicate",
+         "rtcmfilter's entry point is driven in process with all log combinations and slow writers, and the real binary is driven through pipes and files; stdout, the daily record file and the readable log are compared with the valid frames / message count of the same input.",
+         "Log files read as date-ordered concatenation of a fresh directory.", "DESIGN.md section 6, C10"),
+ "C11": ("exploration", BASE_TECH + "writer with controlled latency; bytes completed snapshotted by the calling goroutine in the statement after HandleMessages returns (no waiting in the verdict)",
+         "Both applications' entry points are called in process with writers that delay each Write; a strict prefix at the instant of return is a violation. Process-level runs over finite files with a small, slowly read stdout pipe observe the user-visible consequence.",
+         "atexit_sleep_ms=0 so the race runtime does not mask exit races.", "DESIGN.md section 6, C11"),
+ "C12": ("fault_enumeration", BASE_TECH + "every single-bit flip and 0xD3/0x00 overwrite of each victim frame's payload+CRC enumerated; expected sequence by construction; neighbours' time fields compared with the uncorrupted run of the same build",
+         "For streams of short frames every victim and every single-bit fault is executed (exhaustive for those frames) plus bursts/multi-bit/CRC-only/payload-only faults and large frames; the victim must come out alone as one non-RTCM message and every neighbour unchanged, including (for time-stable MSM streams) the times the handler derives from its state.",
+         "Corruptions that keep the CRC valid are outside the precondition and skipped (counted).", "DESIGN.md section 6, C12"),
+ "C13": ("fault_enumeration", BASE_TECH + "scripted io.Reader injecting EOF / i/o-timeout / other errors at every byte boundary; race detector; reader-side timestamps to tell a machine stall from an early give-up",
+         "Single faults at every byte boundary, double faults, two separate interruptions and three kinds of stop script are executed against the real file handler; tolerant scripts must deliver exactly the uninterrupted sequence, stop scripts exactly the framing of the bytes supplied before the stop, channel closed, error returned.",
+         "The code under test reads the wall clock; a tolerant script on which it gave up while the reader measured a stall is retried, then inconclusive.", "DESIGN.md section 6, C13"),
+ "C14": ("exploration", BASE_TECH + "math/big reference oracle + outside-bit complement invariance; exhaustive over alignments x widths",
+         "Every (alignment, width, signedness) combination is executed on structured patterns (exhaustive) and on millions of random buffers; each result is compared with an independent math/big extraction and must not change when all bits outside the field are complemented.",
+         "Trusts math/big and the harness bit helpers (self-checked by a writer/extractor round trip at every run).", "DESIGN.md section 6, C14"),
+ "C15": ("exploration", BASE_TECH + "canonical-result table per frame; histories through one handler and through the stream handler with retention; concurrent handlers and consumers under the race detector",
+         "A pool of ~250 frames of all types is decoded in random orders with repetition, compared with the result a fresh handler gives, displayed twice with raw-byte hashes; 2-16 concurrent handlers on shared input slices fan value copies out to consumers; first-seen message types are displayed concurrently.",
+         "Two goroutines never share one *Message (the property speaks of copies).", "DESIGN.md section 6, C15"),
+ "C16": ("exploration", BASE_TECH + "the real rtcmlogger process with check-time delay hooks before the recorder's write; stdout and record file compared with stdin after exit",
+         "150 (thorough 5000) processes over block-boundary sizes, chunkings and stdin kinds, natural schedule and widened exit race.",
+         "atexit_sleep_ms=0; files read as date-ordered concatenation of a fresh directory.", "DESIGN.md section 6, C16"),
+ "C17": ("exploration", BASE_TECH + "truth-first time histories with the first observation anywhere in the start time's constellation week",
+         "As C06 with the first observation before, at or after the start time (first instant of the week, 1 ms before T, last millisecond of the week, uniform).",
+         "As C06.", "DESIGN.md section 6, C17"),
+ "C18": ("exploration", BASE_TECH + "exhaustive operation sequences against a list model; every snapshot of long runs; concurrent histories recorded at the client boundary and checked for linearizability with porcupine; race detector",
+         "All 2^14 (thorough 2^18) Add/snapshot sequences x 8 capacities, long runs far beyond the capacity with every snapshot checked, and thousands of short concurrent histories with unique ids.",
+         "porcupine v1.3.0; checker timeout = inconclusive.", "DESIGN.md section 6, C18"),
+ "C19": ("exploration", BASE_TECH + "the real proxy process on TCP loopback with harness-side upstream, client and HTTP poller; pinned report template; listed messages parsed back from hex dumps and matched against the same build's framing",
+         "Relay equality in both directions, process survival, HTML escaping of all traffic-derived report parts and membership of listed messages are observed over sessions of mixed/hostile/HTML-bearing traffic, plus in-process Status calls.",
+         "TLS mode and server-closes-first behaviour are not covered.", "DESIGN.md section 6, C19"),
+ "C20": ("exploration", BASE_TECH + "complete enumeration of 4096 types + sentinels against a table written from the property statement",
+         "Every type is checked on predicates, constellation, title, decoder-family acceptance, timestamp extraction, Analyse dispatch and display with five synthetic frames each; the space is finite and swept completely.",
+         "Bodies per type are samples (5 quick / 69 thorough).", "DESIGN.md section 6, C20"),
 }
 
 PENDING = {}
